@@ -20,6 +20,10 @@ mod memory;
 mod options;
 mod sealed;
 
+#[cfg(feature = "verif-hooks")]
+#[doc(hidden)]
+pub mod verif_hooks;
+
 #[cfg(test)]
 #[macro_use]
 mod tests;
@@ -881,6 +885,8 @@ impl Meta {
   unsafe fn clear<A: Allocator>(&self, arena: &A) {
     unsafe {
       let ptr = arena.raw_mut_ptr().add(self.ptr_offset as usize);
+      #[cfg(feature = "verif-hooks")]
+      crate::verif_hooks::zeroed(ptr as usize, self.ptr_size as usize);
       core::ptr::write_bytes(ptr, 0, self.ptr_size as usize);
     }
   }
